@@ -185,6 +185,9 @@ def tlc_ops_only(module, consts, workdir, tag):
 RE_REJECT = re.compile(r'^<<"REJECT", (\d+), "(.*)">>\s*$')
 
 
+POLICY_DRIFT = {'records': 0, 'samples': []}      # records where the implementation's list is not the policy specification's (IterTrace)
+
+
 def tlc_validate(trace_module, tconsts, prop, shard, workdir, tag, extra_env=None, timeout=1800):
     """(C): validate one shard; returns None if accepted, else (index, record)."""
     cfg = os.path.join(workdir, tag + '.cfg')
@@ -208,6 +211,10 @@ def tlc_validate(trace_module, tconsts, prop, shard, workdir, tag, extra_env=Non
                 ok = True
             if line.startswith('Error:'):
                 errs.append(line.strip()[:1500])
+            if line.startswith('<<"POLICY-DRIFT"'):
+                POLICY_DRIFT['records'] += 1
+                if len(POLICY_DRIFT['samples']) < 3:
+                    POLICY_DRIFT['samples'].append(line.strip()[:400])
     if rej:
         os.remove(out)
         return rej
